@@ -69,6 +69,10 @@ theorem c07_no_shared_class_state : Gen.classLevelMutables = [] := by decide
 /-- no array is allocated uninitialised: no result can depend on what freed memory happened to hold. -/
 theorem c07_no_uninitialised_memory : Gen.uninitialisedAllocs = [] := by decide
 
+/-- no function is wrapped by a caching decorator: no result is served from what an earlier call (with
+an equal path, size or argument) happened to compute. -/
+theorem c07_no_memoised : Gen.memoised = [] := by decide
+
 /-- non-vacuity: an in-place wrapper WOULD change the caller's array (this is the defect that was
 repaired in /repo: `x += c.EPSILON`). -/
 example : (wrapperCall [(0, true), (1, true)] 1 [[0, 5], [7]]).2 = [[1, 6], [8]] := by decide
